@@ -126,8 +126,15 @@ def main():
         if valid or keep:
             dst = os.path.join(HERE, 'seeded', seed_id)
             os.makedirs(dst, exist_ok=True)
-            shutil.copy(patch, os.path.join(dst, 'patch.diff'))
-            shutil.copy(demo_src, os.path.join(dst, 'demo.py'))
+            if os.path.abspath(dst) != os.path.abspath(src):
+                shutil.copy(patch, os.path.join(dst, 'patch.diff'))
+                shutil.copy(demo_src, os.path.join(dst, 'demo.py'))
+            else:
+                # re-evaluation in place: keep the record of the checks that
+                # were not run again
+                old = (meta.get('verification') or {}).get('checks') or {}
+                for pid_, c_ in old.items():
+                    rec['checks'].setdefault(pid_, c_)
             out_meta = dict(meta)
             out_meta['verification'] = rec
             with open(os.path.join(dst, 'meta.json'), 'w') as f:
